@@ -285,7 +285,53 @@ class SymCtx(_BaseCtx):
             return True
         cex = {'label': label, 'job': self.job, 'inputs': self.model_inputs(m), 'info': _jsonable(info(m) if callable(info) else info)}
         r['violations'].append(cex)
+        # a few more, deliberately different, models of the same refutation: the solver's first pick may sit on a point where an
+        # Ackermannised function value is unrealistic (does not replay); the parent replays them in turn until one is confirmed
+        if r['more_models'].get(label, 0) < 2:
+            r['more_models'][label] = r['more_models'].get(label, 0) + 1
+            for m2 in self._more_models(claim, m, self.extra_models):
+                r['violations'].append({'label': label, 'job': self.job, 'inputs': self.model_inputs(m2), 'info': _jsonable(info(m2) if callable(info) else info),
+                                        'diversified': True})
         return False
+
+    extra_models = 5
+
+    def _more_models(self, claim, first, k):
+        import random as _random
+        ex = self.ex
+        neg = z3.BoolVal(True) if claim is False else z3.Not(claim)
+        scal = [(n, v) for n, v in self.inputs.items() if isinstance(v, (SF, SI))]
+        if not scal or k <= 0:
+            return []
+        rnd = _random.Random(len(self.inputs) * 1009 + len(ex.trace))
+        out = []
+        prev = first
+        for _ in range(k):
+            cons = []
+            chosen = [sv for sv in scal if rnd.random() < 0.6] or [rnd.choice(scal)]
+            for (n, v) in chosen[:6]:
+                t = v.v if isinstance(v, SF) else v.t
+                try:
+                    pv = prev.eval(t, model_completion=True)
+                except z3.Z3Exception:
+                    continue
+                delta = rnd.choice((1, 2, 7, 40)) if isinstance(v, SI) else z3.RealVal(rnd.choice(('0.01', '0.5', '3', '20', '100')))
+                cons.append(t > pv + delta if rnd.random() < 0.5 else t < pv - delta)
+            keep = ex.model
+            sat = False
+            while cons and not sat:
+                try:
+                    sat = ex._raw_check(z3.And(neg, *cons))
+                except sc.Inconclusive:
+                    ex.stats.unknown -= 1
+                    sat = False
+                if not sat:
+                    cons.pop(rnd.randrange(len(cons)))      # out of range in some direction: relax
+            ex.model = keep
+            if sat:
+                out.append(ex.last_model)
+                prev = ex.last_model
+        return out
 
     def observe(self, label, value):
         self.observed[label] = value
@@ -605,7 +651,7 @@ def _same_plain(x, y):
 
 # ----------------------------------------------------------------- one exploration task (runs in a pool process)
 def _new_result():
-    return {'violations': [], 'reached': {}, 'twin': {}, 'samples': [], 'trivial': 0}
+    return {'violations': [], 'reached': {}, 'twin': {}, 'samples': [], 'trivial': 0, 'more_models': {}}
 
 
 def run_task(task):
